@@ -920,6 +920,25 @@ class StructCmp(Component):
         h, cls, f = parse_outcome(impl)
         return ['class=' + cf.get('class', '?'), 'struct=' + f.get('struct', '?').split(':')[0], 'dec=' + f.get('dec', '?').split(':')[0]]
 
+class StructNoPanic(StructCmp):
+    """C04: the frame-parsing entry points of stream.rs (`Frame::read`, `Frame::read_subset`, `Subframe::decode`) on the same
+    checksum-valid malformed frames, both profiles: data or an error, never a panic"""
+    name = 'structparse'
+    def cases(self, rng, tier, boost):
+        n = self.budget(tier, boost, 700, 40000)
+        out = []
+        for l in driver_gen('invalid', rng.randint(1, 10 ** 9), n):
+            op, cf = parse_case(l)
+            if op == 'streamread':
+                out.append(f"structcmp si=none bytes={cf['bytes']} class={cf.get('class', 'valid')} nummin={cf.get('nummin', '0')}")
+        return out
+    def oracle(self, case, impl, profile):
+        op, cf = parse_case(case)
+        h, cls, f = parse_outcome(impl)
+        if h == 'panic':
+            return (f'structparse:{profile}:panic:{cls}', f'structural parser / expansion panicked ({profile}) on a checksum-valid malformed frame of class {cf.get("class")}: {cls}')
+        return None
+
 # ------------------------------------------------------------------------------------------------
 # C14 — interrupted encodes
 # ------------------------------------------------------------------------------------------------
@@ -1109,6 +1128,8 @@ class BlocksWrite(Component):
         # every picture type code the format defines (and the first two undefined ones), each alone
         for t in range(0, 23):
             out.append('blocksw list=' + metagen.streaminfo_lit(rng) + ';' + metagen.picture_lit(rng, t))
+        # the once-per-file rules: every ordered pair (and some triples) of the icon picture types and an ordinary one
+        out += ['blocksw list=' + l for l in metagen.single_instance_cases()[1]]
         # every block kind alone at its extremes, then random lists
         for kind in 'PATVIQC':
             for _ in range(self.budget(tier, boost, 12, 300)):
@@ -1157,6 +1178,7 @@ class BlocksRead(Component):
     profiles = ('release', 'checked')
     def cases(self, rng, tier, boost):
         out = [f'blocksr bytes={b.hex()} alloc=1 class={c}' for c, b in metagen.inflated_sections()]
+        out += [f'blocksr bytes={b.hex()} alloc=1 class={c}' for c, b in metagen.single_instance_cases()[0]]
         for _ in range(self.budget(tier, boost, 400, 20000)):
             b = metagen.section(rng)
             if rng.random() < 0.7:
@@ -1656,13 +1678,14 @@ PROPS['C04'] = dict(
     module='FlacModel.Props.C04',
     theorems=['Flac.C04.np_decLayout', 'Flac.C04.readSubframe_np_facts', 'Flac.C04.np_decodeSub', 'Flac.C04.np_recorrelate',
               'Flac.C04.pnp_readHeaderFields', 'Flac.C04.decode_no_panic', 'Flac.C04.stream_read_no_panic', 'Flac.C04.file_loop_no_panic'],
-    components=[InvalidStreams('nopanic'), Damage('nopanic'), BlocksRead()],
+    components=[InvalidStreams('nopanic'), Damage('nopanic'), BlocksRead(), StructNoPanic()],
     rule='(a) 1500 (quick) / 80000 (thorough) checksum-consistent frames from the Lean generator with one field forced illegal or extreme (22 classes: reserved codes, wasted >= depth, '
          'precision 1111, negative shift, reserved coding methods, any partition order with matching partition count, residuals beyond 32 bits, samples leaving their depth, non-zero padding, '
          'predictor order > block, maximal LPC on full-scale input incl. the 33-bit side path, full-scale stereo, maximal wasted bits, zero-width partitions, one-sample block with order 1, '
          'declared total smaller than the frames); (b) every single-bit flip and every truncation of 8 (40) small valid files plus CRC-16-repaired flips; (c) raw bytes with planted sync codes; '
          'all through FlacStreamReader and the four file readers in the optimised AND the overflow-checked profile, peak allocation per case measured by a counting allocator against '
-         '64 MiB + 1 KiB per input byte; the Lean decoder model must predict each outcome (including would-be panic sites)',
+         '64 MiB + 1 KiB per input byte; the Lean decoder model must predict each outcome (including would-be panic sites); (d) the same malformed frames through the frame-parsing entry points '
+         'of stream.rs (Frame::read, Frame::read_subset, Subframe::decode) in both profiles',
     claim='decode_no_panic: for EVERY byte string, STREAMINFO context and both profiles the frame decoder model (header, subframes, residuals, prediction, wasted bits, channel reconstruction, '
           'both CRCs) ends in data or an error - proved function by function (pnp_* for the bit parsers, np_decLayout for the guarded partition length, np_decodeSub from the parsed-field facts '
           'readSubframe_np_facts: wasted < depth and shift < 16, np_recorrelate for the wrapping reconstruction incl. the 33-bit path); stream_read_no_panic and file_loop_no_panic lift it to '
@@ -1742,8 +1765,8 @@ PROPS['C14'] = dict(
 )
 
 PROPS['C15'] = dict(
-    module='FlacModel.Props.C15',
-    theorems=['Flac.C15.ctor_total', 'Flac.C15.documented_values_accepted', 'Flac.C15.declared_length_contract', 'Flac.C15.undeclared_records_count'],
+    module='FlacModel.Props.C15b',
+    theorems=['Flac.C15.ctor_total', 'Flac.C15.documented_values_accepted', 'Flac.C15.declared_length_contract', 'Flac.C15.undeclared_records_count', 'Flac.C15.candidates_fit', 'Flac.C15.candidates_nonempty'],
     components=[CtorGrid()],
     rule='the boundary grid of every constructor parameter (depth 0,1,2,...,32,33,64; channels 0,1,2,8,9,255; rate 0,1,44100,2^20-1,2^20,4e9; block size 0,15,16,17,4096,65535; LPC none,0,1,8,31,32,33; '
          'partition order 0,5,15,16), one at a time and randomly crossed, for the byte, sample and channel writers, each followed by a fill history that under-, exactly- or over-fills a declared '
